@@ -11,3 +11,5 @@ require (
 require github.com/google/uuid v1.6.0 // indirect
 
 replace github.com/jimsnab/go-redisemu => /repo
+
+godebug randseednop=0
